@@ -182,7 +182,7 @@ PIPE_NOTE = ("Under contract from the pipeline (each per piece / per row / per f
 PROPS["C01"] = {
     "level": "other",
     "technique": "deductive verification of the steps that carry conservation (lookup returns source rows, trims produce sub-intervals, the cut QC is a sound gate, cut_fragments' pieces add up, bookkeeping of placed contigs, premises, left-over contigs kept) + bounded base-by-base conservation oracle over PretextView-model and perturbed maps, down to the files the CLI writes",
-    "level_text": "Proved: find_overlaps returns a window of the input scaffold's own row objects; discard/trim operations keep rows a sub-run of that window; trim_fragment returns a sub-interval of the trimmed contig under its name; qc_sub_fragments is an exact gate: it returns normally only if the pieces, sorted, abut pairwise, start at the contig's start and end at its end (exact partition), and it raises only if they do not (a consistent set of pieces is never rejected); cut_fragments makes one such piece per overlap result, all sub-intervals, lengths adding up to the contig, the first piece (in contig order) keeping the contig's start and the last its end on either strand; store_fragments_found records every contig row of a placed piece under its (name, start, end), a second sighting marking it as found more than once, and lists the piece as a holder; add_overhang_premise makes exactly one what-if per holder that has the shared contig at an end (start premise for the first row, end premise for the last) and none for a holder that has it in the middle; the premises' bait overlap, what-if overhang, its change and `improves` equal interval arithmetic; applying a premise (Start/EndOverhangPremise.apply, the only way make_fixes changes an overlap result) removes rows at the end the premise is about from its own overlap result, keeps the other end and the bait, and leaves the result well-formed; add_missing_scaffolds_from_input keeps every contig the map did not place, whole and in order, in a left-over scaffold, and raises nothing of its own (only naming may fail). Bounded: the composition over the whole run (every base of every input contig in exactly one output fragment across all output assemblies; errors instead of silent loss for perturbed maps).",
+    "level_text": "Proved: find_overlaps returns a window of the input scaffold's own row objects; discard/trim operations keep rows a sub-run of that window; trim_fragment returns a sub-interval of the trimmed contig under its name; qc_sub_fragments is an exact gate: it returns normally only if the pieces, sorted, abut pairwise, start at the contig's start and end at its end (exact partition), and it raises only if they do not (a consistent set of pieces is never rejected); cut_fragments makes one such piece per overlap result, all sub-intervals, lengths adding up to the contig, the first piece (in contig order) keeping the contig's start and the last its end on either strand; store_fragments_found records every contig row of a placed piece under its (name, start, end), a second sighting marking it as found more than once, and lists the piece as a holder; add_overhang_premise makes exactly one what-if per holder that has the shared contig at an end (start premise for the first row, end premise for the last) and none for a holder that has it in the middle; the premises' bait overlap, what-if overhang, its change and `improves` equal interval arithmetic; applying a premise (Start/EndOverhangPremise.apply, the only way make_fixes changes an overlap result) removes rows at the end the premise is about from its own overlap result, keeps the other end and the bait, and leaves the result well-formed; `makes_worse` holds whenever the result has a single row (the only row of a piece is never given up through a premise); FoundFragment.scaffold_count is the number of holders; add_missing_scaffolds_from_input keeps every contig the map did not place, whole and in order, in a left-over scaffold, and raises nothing of its own (only naming may fail). Bounded: the composition over the whole run (every base of every input contig in exactly one output fragment across all output assemblies; errors instead of silent loss for perturbed maps).",
     "level_note": PIPE_NOTE,
     "lemmas": [],
     "bounded": [("bounded.c01", {})],
